@@ -236,8 +236,27 @@ def s2_guarded_insertion(chk, db, rec_q, funcs, needs_full):
     return n
 
 
+def _subst_end_tests(e):
+    """replace `x == end()` by false and `x != end()` by true (the position is taken to designate an element)"""
+    e = astx.strip_casts(e)
+    if e is None:
+        return None
+    k = e.get("k")
+    if k == "paren":
+        return _subst_end_tests(e.get("e"))
+    if k == "un" and e["op"] == "!":
+        return {"k": "un", "op": "!", "e": _subst_end_tests(e["e"])}
+    if k == "bin" and e["op"] in ("&&", "||"):
+        return {"k": "bin", "op": e["op"], "l": _subst_end_tests(e["l"]), "r": _subst_end_tests(e["r"])}
+    if k == "bin" and e["op"] in ("==", "!=") and any(astx.callee(x)[0] in ("end", "cend") for x in calls_in(e)):
+        return {"k": "bool", "v": e["op"] == "!="}
+    return e
+
+
 def s3_erase_by_key(chk, db, rec_q, funcs):
-    """erase(key): an erase of a position must be dominated by a test on that position; erase-remove forms select by =="""
+    """erase(key): the position found by lower_bound/find is erased exactly when its element is equivalent to the key.
+    Decided in the two worlds lower_bound leaves open (element == key, element > key): the tests on the path to the erase
+    are evaluated in each; the erase must be reachable in the first and unreachable in the second."""
     cn = comparator_names(db, rec_q)
     n = 0
     for f in funcs:
@@ -248,11 +267,19 @@ def s3_erase_by_key(chk, db, rec_q, funcs):
         chk.instance("S3")
         key = f["params"][0]["n"]
         bad = None
+        unknown = None
+        reach_eq = False
+        any_pos_erase = False
         for p in paths(f["body"]):
             pos_vars = set()
             tested = False
             by_remove = False
+            feasible = {"=": True, ">": True}
+            modelled = True
+            lcn = set(cn)
             for ev in p:
+                if ev[0] == "decl" and ev[1].get("init") is not None and mentions(ev[1]["init"], cn) and not calls_in(ev[1]["init"]):
+                    lcn.add(ev[1]["n"])          # auto cmp = key_compare{};
                 for e in event_exprs(ev):
                     for c in calls_in(e):
                         nm = astx.callee(c)[0]
@@ -260,21 +287,41 @@ def s3_erase_by_key(chk, db, rec_q, funcs):
                             pos_vars.add(ev[1]["n"])
                         if nm in ("remove", "remove_if"):
                             by_remove = True
-                    if ev[0] == "cond" and pos_vars and mentions(e, pos_vars) and (mentions(e, {key}) and
-                                                                                  (mentions(e, cn) or _has_cmp_with_deref(e, pos_vars))):
-                        if (ev[2] is True) or True:
+                    if ev[0] == "cond" and pos_vars and mentions(e, pos_vars):
+                        if mentions(e, {key}) and (mentions(e, lcn) or _has_cmp_with_deref(e, pos_vars)):
                             tested = True
+                        for o in "=>":
+                            t = pred_truth(_subst_end_tests(e), pos_vars, {key}, lcn, o)
+                            if t is None:
+                                modelled = False
+                            elif t != ev[2]:
+                                feasible[o] = False
                     for c in calls_in(e):
                         nm, q, recv, kind = astx.callee(c)
                         if nm == "erase" and c["a"] and not by_remove:
                             a0 = astx.strip_casts(c["a"][0])
-                            if a0.get("k") == "ref" and a0["n"] in pos_vars and not tested and bad is None:
-                                bad = c
-        chk.obligation("S3", construct, bad is None)
+                            if a0.get("k") == "ref" and a0["n"] in pos_vars:
+                                any_pos_erase = True
+                                if not tested and bad is None:
+                                    bad = (c, "erases the lower_bound position without testing that it is equivalent to the key")
+                                elif tested and modelled:
+                                    if feasible[">"] and bad is None:
+                                        bad = (c, "is reached when the element at the position is greater than the key "
+                                                  "(the equivalence test does not exclude it)")
+                                    if feasible["="]:
+                                        reach_eq = True
+                                elif tested and not modelled:
+                                    unknown = "the test on the erased position is not a modelled comparison"
+                                    reach_eq = True
+        if any_pos_erase and not reach_eq and bad is None:
+            bad = (None, "no path erases the position when its element is equivalent to the key")
+        chk.obligation("S3", construct, (bad is None) if unknown is None or bad else None)
         if bad:
             chk.violation("S3", construct, "erases-without-equivalence-test",
-                          "%s: `%s` erases the lower_bound position without testing that it is equivalent to the key" % (
-                              astx.loc(f, bad), astx.show(bad, 60)), {"where": astx.loc(f)})
+                          "%s: `%s` %s" % (astx.loc(f, bad[0]), astx.show(bad[0], 60) if bad[0] else "erase(key)", bad[1]),
+                          {"where": astx.loc(f)})
+        elif unknown:
+            chk.unknown_instance("S3", construct, unknown)
     return n
 
 
